@@ -95,6 +95,24 @@ for z in (0.0, 0.25):                 # initial state given as a bare scalar / o
         chk("brownian init_state=%r" % (st,), ps.generate_brownian(3, 4, init_state=st, dt=0.02, dtype=torch.float64), 3, 4, (z,))
         chk("vasicek init_state=%r" % (st,), ps.generate_vasicek(3, 4, init_state=st, dt=0.02, dtype=torch.float64), 3, 4, (z,))
         chk("cir init_state=%r" % (st,), ps.generate_cir(3, 4, init_state=st, dt=0.02, dtype=torch.float64), 3, 4, (z,), nonneg=True)
+# requested dtype honoured for every floating dtype under both global defaults (values are not compared here)
+gens = {"brownian": lambda **k: ps.generate_brownian(3, 4, **k), "gbm": lambda **k: ps.generate_geometric_brownian(3, 4, **k), "cir": lambda **k: ps.generate_cir(3, 4, **k),
+        "heston": lambda **k: ps.generate_heston(3, 4, **k).spot, "vasicek": lambda **k: ps.generate_vasicek(3, 4, **k), "merton": lambda **k: ps.generate_merton_jump(3, 4, **k),
+        "kou": lambda **k: ps.generate_kou_jump(3, 4, **k), "localvol": lambda **k: ps.generate_local_volatility_process(3, 4, lambda tt, s_: 0.2 + 0.0 * s_, **k)[0],
+        "rough_bergomi": lambda **k: ps.generate_rough_bergomi(3, 4, **k).spot}
+for default in (torch.float32, torch.float64):
+    torch.set_default_dtype(default)
+    try:
+        for D in (torch.float16, torch.bfloat16, torch.float32, torch.float64):
+            for gname, g in gens.items():
+                try:
+                    o = g(dtype=D)
+                except Exception as e:
+                    if "not implemented for" in str(e) or "Half" in str(e) or "BFloat16" in str(e): continue       # torch has no kernel for this dtype on CPU
+                    bad.append((gname, "dtype=%s under default %s" % (D, default), type(e).__name__)); continue
+                if o.dtype != D: bad.append((gname, "requested %s under default %s" % (D, default), "got %s" % o.dtype))
+    finally:
+        torch.set_default_dtype(torch.float32)
 h = ps.generate_heston(5, 6, dtype=torch.float64)
 if not torch.allclose(h.volatility, h.variance.clamp(min=0).sqrt()): bad.append("heston volatility != sqrt(variance)")
 result = {"got": [str(b) for b in bad][:12], "ref": []}
@@ -104,7 +122,7 @@ result = {"got": [str(b) for b in bad][:12], "ref": []}
 def _replay_gen():
     r = real_exec(GEN_REPLAY, {}, timeout=600)
     ok = r.get('ok') and r['result']['got'] == []
-    return {'real': r, 'confirmed': not ok, 'note': 'replay: real generators for (n_paths, n_steps) in {(1,1),(3,2),(4,7)}, non-default initial states (tuples and bare scalars, incl. 0), float32/float64: shape, first column, finiteness, sign, dtype'}
+    return {'real': r, 'confirmed': not ok, 'note': 'replay: real generators for (n_paths, n_steps) in {(1,1),(3,2),(4,7)}, non-default initial states (tuples and bare scalars, incl. 0), float32/float64: shape, first column, finiteness, sign, dtype; the requested dtype (float16, bfloat16, float32, float64) under both global default dtypes'}
 
 
 LAW = '[law] '
